@@ -1,5 +1,5 @@
-"""C13 — builders refuse inconsistent constructions (model: coq/model/BuilderErr.v + Tracked.v,
-spec: coq/spec/BuilderErrS.v).
+"""C13 — builders refuse inconsistent constructions (model: coq/model/BuilderErr.v + Tracked.v + BuilderParts.v,
+spec: coq/spec/BuilderErrS.v + BuilderPartsS.v).
 
 Builders are context managers: calls are observed plainly AND from inside real `with` blocks (conditional
 sessions: statements ["with", contexts, body]; other kinds: case["ctx"] selects enclosing builders) - what is
@@ -1271,6 +1271,10 @@ class C13(fw.Prop):
             "builders are also used as context managers: conditional sessions whose calls run uncaught inside "
             "`with cond:` / `with case:` / `with dfg:` blocks (whole programs over all cases with one inconsistency "
             "at a random position), and calls of every other class inside `with` blocks of their enclosing builders.  "
+            "round 5: programs of parts (functions with undeclared / declared outputs at module level or nested, Dfgs, "
+            "Conditionals, CFGs, loops, partial operations; hosts = the innermost chain builder or the body of an earlier "
+            "part) with mostly exactly one thing left unfinished at a random position (incl. the chain itself), then one of "
+            "Hugr.to_json / Package.to_json / to_bytes (binary, text) / to_str.  "
             "non-trivial = the call is refused, or it is an accepted inter-graph / inter-block wire, or a "
             "session with >= 2 accepted calls")
     trusted = ["the interpreter of case descriptions (harness/props/c13.py) and its knowledge of which kind of "
@@ -1282,6 +1286,9 @@ class C13(fw.Prop):
                "`with` blocks are real Python `with` statements on the builders (in_ctx); of a body only the calls "
                "that actually ran are presented; `with cond.add_case(i) as c: c.set_outputs(r)` is presented as the "
                "two calls in sequence (the Case context is transparent in the model)"]
+    trusted = trusted + ["the part interpreter obs_serparts makes exactly the calls its literal names (which finishing "
+                         "calls were made, which outputs were only declared, which operations were never wired); "
+                         "nothing is read back from the HUGR for KSerParts"]
     assumptions = ["the wire's target is the operation of the target builder, recorded or not by a refusal"]
 
     def __init__(self):
